@@ -339,7 +339,7 @@ def subchecks(tier, seed):
                         if ds == 'diffuse' and (model != 'cwmm' or D != 21):
                             continue
                         yield (fam, (-1,), 'none', 'default' if model == 'cacgmm' else 'none', 2, D, 1, ds, st,
-                               30 if ds == 'diffuse' else 8, seed)
+                               16 if ds == 'diffuse' else 8, seed)
     wide = Sub('em_many_channels',
                ('family', 'wca', 'sal', 'eps', 'K', 'D', 'F', 'data', 'start', 'n', 'seed'), wide_cases, run_traj,
                bound=dict(iterations=8, D=[12, 21], K=2, families='cwmm, cacgmm', note='low concentrations in many '
